@@ -110,7 +110,19 @@ class Gen:
             return se.OptionalPrefixed(s), lambda r, vf=vf: (None if r.random() < 0.3 else vf(r)), t
         if k == "ifpresent":
             s, vf, t = self.tree(depth - 1, True)
-            return se.IfPresent(s), lambda r, vf=vf: vf(r), True
+            # IfPresent reads its child iff bytes remain: a child value with an EMPTY encoding (e.g. [] of a greedy collection) is
+            # indistinguishable from "absent" on the wire and so is not in the domain; None stands for it (thorough-tier false alarm)
+            def vf_present(r, vf=vf, s=s):
+                v = vf(r)
+                try:
+                    w = se.BufferWriter("<")
+                    w.write(s, v)
+                    if not len(w.copy_buffer()):
+                        return None
+                except Exception:  # noqa
+                    pass
+                return v
+            return se.IfPresent(s), vf_present, True
         if k in ("typed_array", "typed_fixed", "typed_greedy"):
             s, vf, t = self.tree(depth - 1, True)
             if k == "typed_array":
